@@ -15,9 +15,9 @@ import (
 const HooksAvailable = false
 
 func hookEncDepths(v structform.Visitor) func() []int { return func() []int { return nil } }
-func hookParserDepths(p parserI) []int              { return nil }
-func hookParserFinalize(p parserI) error            { return nil }
-func hookJSONEscapeSets() ([]bool, []bool)          { return nil, nil }
+func hookParserDepths(p parserI) []int                { return nil }
+func hookParserFinalize(p parserI) error              { return nil }
+func hookJSONEscapeSets() ([]bool, []bool)            { return nil, nil }
 func hookKeyCacheOrder(u *gotype.Unfolder) ([]string, int, bool) {
 	return nil, 0, false
 }
